@@ -553,6 +553,22 @@ pub fn configs(tier: &str, prop: &str) -> Vec<(Cfg, BfsCfg)> {
     },
     mk(if thorough { 8 } else { 6 }, if thorough { 900.0 } else { 25.0 }),
   ));
+  // F: two fragmented samples half-assembled at the same time (several NACKFRAGs answer one HEARTBEAT)
+  v.push((
+    Cfg {
+      name: "F: one writer [1 three-fragment, 2 three-fragment, 3 plain]".into(),
+      streams: vec![vec![Kind::Frag(1, 5), Kind::Frag(2, 5), Kind::Plain(1)]],
+      frag_size: 8, // sample = 4 + 12 + 5 = 21 bytes -> 3 fragments
+      hb_menu: vec![vec![(1, 2), (1, 3)]],
+      gap_menu: vec![vec![]],
+      data_menu: None,
+      take_sizes: vec![0],
+      max_hb: 3,
+      check_c01: c01,
+      check_c03: c03,
+    },
+    mk(if thorough { 8 } else { 6 }, if thorough { 600.0 } else { 20.0 }),
+  ));
   if c03 || thorough {
     // W: wide window family: HEARTBEAT ranges wider than the 256-element SequenceNumberSet
     let n = 600usize;
